@@ -5,6 +5,27 @@ import HttpServeModel.Model.Body
 
 namespace HS
 
+/-! ### `StaysFailed` -/
+
+theorem staysFailed_nil : StaysFailed [] := by
+  intro pre post h
+  cases pre <;> simp at h
+
+theorem staysFailed_tail {e : Ev} {s : List Ev} (h : StaysFailed (e :: s)) : StaysFailed s := by
+  intro pre post hs
+  exact h (e :: pre) post (by simp [hs])
+
+theorem staysFailed_suffix {pre s : List Ev} (h : StaysFailed (pre ++ s)) : StaysFailed s := by
+  intro pre' post hs
+  exact h (pre ++ pre') post (by simp [hs])
+
+theorem staysFailed_err {rest : List Ev} (h : StaysFailed (Ev.err :: rest)) : rest = [] :=
+  h [] rest rfl
+
+theorem staysFailed_of_no_err {s : List Ev} (h : Ev.err ∉ s) : StaysFailed s := by
+  intro pre post hs
+  exact absurd (by simp [hs]) h
+
 /-! ### ExactLen -/
 
 theorem ExactLen.poll_data {s : ExactLen} {d : Bytes} (h : s.poll.2 = .data d) :
@@ -62,7 +83,8 @@ theorem ExactLen.poll_not_panic (s : ExactLen) : s.poll.2 ≠ .panic ∧ s.poll.
   · split <;> simp
 
 /-- After an error the stream is fused: nothing outstanding. -/
-theorem ExactLen.poll_err {s : ExactLen} (h : s.poll.2.isErr = true) :
+theorem ExactLen.poll_err {s : ExactLen} (hsf : StaysFailed s.stream)
+    (h : s.poll.2.isErr = true) :
     (s.poll.2 = .errEntity ∧ s.poll.1.stream = []) ∨ s.poll.1.remaining = 0 := by
   unfold ExactLen.poll at h ⊢
   split
@@ -70,7 +92,7 @@ theorem ExactLen.poll_err {s : ExactLen} (h : s.poll.2.isErr = true) :
     · right; rfl
     · rename_i hs hr; simp [hs, hr, PollOut.isErr] at h
   · rename_i hs; simp [hs, PollOut.isErr] at h
-  · left; simp
+  · rename_i rest hs; rw [hs] at hsf; left; simp [staysFailed_err hsf]
   · split
     · rename_i hs hle; simp [hs, hle, PollOut.isErr] at h
     · right; rfl
@@ -586,7 +608,7 @@ theorem ExactLen.fused_step (e : ExactLen) (h : e.remaining = 0 ∨ e.stream = [
       · exact ⟨Or.inl rfl, by simp [PollOut.quiet, PollOut.dataLen]⟩
       · rename_i hs _; exact ⟨Or.inr hs, by simp [PollOut.quiet, PollOut.dataLen]⟩
     · exact ⟨Or.inl h, by simp [PollOut.quiet, PollOut.dataLen]⟩
-    · exact ⟨Or.inr rfl, by simp [PollOut.quiet, PollOut.dataLen]⟩
+    · exact ⟨Or.inl h, by simp [PollOut.quiet, PollOut.dataLen]⟩
     · split
       · rename_i bs _ _ hle
         refine ⟨Or.inl (by simp; omega), ?_⟩
@@ -619,8 +641,52 @@ theorem BodyS.fused_step (b : BodyS) (h : Fused b) : Fused b.poll.1 ∧ b.poll.2
     simp only [BodyS.poll, e]
     exact ⟨⟨hb, hc, hs, hr⟩, by simp [PollOut.quiet, PollOut.dataLen]⟩
 
+theorem ExactLen.poll_stream (s : ExactLen) : s.poll.1.stream = s.stream.tail := by
+  unfold ExactLen.poll
+  split
+  · rename_i hs; split <;> simp [hs]
+  · rename_i hs; simp [hs]
+  · rename_i hs; simp [hs]
+  · rename_i hs; split <;> simp [hs]
+
+/-- The entity stream the body reads directly stays failed once it has failed.  Only the
+single-stream kind needs this: a multipart body drops the current part's stream on its first
+error and never polls it again. -/
+def BodyS.StaysFailed : BodyS → Prop
+  | .exact e => HS.StaysFailed e.stream
+  | _ => True
+
+theorem BodyS.staysFailed_poll (b : BodyS) (h : b.StaysFailed) : b.poll.1.StaysFailed := by
+  cases b with
+  | once p => cases p <;> simp [BodyS.poll, BodyS.StaysFailed]
+  | exact e =>
+    simp only [BodyS.poll, BodyS.StaysFailed] at h ⊢
+    rw [ExactLen.poll_stream]
+    cases hs : e.stream with
+    | nil => exact staysFailed_nil
+    | cons x rest => rw [hs] at h; exact staysFailed_tail h
+  | multi m => simp [BodyS.poll, BodyS.StaysFailed]
+
+theorem BodyS.ofPlan_staysFailed {p : Plan} {scripts : List (List Ev)} {b : BodyS}
+    (hsf : ∀ s ∈ scripts, HS.StaysFailed s) (hb : BodyS.ofPlan p scripts = .ok b) :
+    b.StaysFailed := by
+  cases p with
+  | once n => simp [BodyS.ofPlan] at hb; subst hb; trivial
+  | empty => simp [BodyS.ofPlan] at hb; subst hb; trivial
+  | multipart phs ranges len => simp [BodyS.ofPlan] at hb; subst hb; trivial
+  | exact a c =>
+    simp only [BodyS.ofPlan, bind, R.bind] at hb
+    cases hn : subChk c a with
+    | panic => simp [hn] at hb
+    | ok n =>
+      simp [hn, pure] at hb; subst hb
+      cases scripts with
+      | nil => exact staysFailed_nil
+      | cons s _ => exact hsf s (by simp)
+
 /-- Any terminal event (end or error) leaves the body fused. -/
-theorem BodyS.terminal_fuses (b : BodyS) (h : BInv b) (ht : b.poll.2.isTerminal = true) :
+theorem BodyS.terminal_fuses (b : BodyS) (h : BInv b) (hsf : b.StaysFailed)
+    (ht : b.poll.2.isTerminal = true) :
     Fused b.poll.1 := by
   cases b with
   | once p =>
@@ -632,7 +698,7 @@ theorem BodyS.terminal_fuses (b : BodyS) (h : BInv b) (ht : b.poll.2.isTerminal 
       obtain ⟨h1, _, h3⟩ := ExactLen.poll_end ho
       rw [h3]; exact Or.inl h1
     | errEntity | errShort _ | errLong _ =>
-      rcases ExactLen.poll_err (s := e) (by simp [ho, PollOut.isErr]) with ⟨_, h⟩ | h
+      rcases ExactLen.poll_err (s := e) hsf (by simp [ho, PollOut.isErr]) with ⟨_, h⟩ | h
       · exact Or.inr h
       · exact Or.inl h
     | data _ | pending | panic | diverge => simp [ho, PollOut.isTerminal] at ht
@@ -661,13 +727,14 @@ def quietAfterTerminal : List PollOut → Prop
   | [] => True
   | o :: rest => (o.isTerminal = true → ∀ o' ∈ rest, o'.quiet) ∧ quietAfterTerminal rest
 
-theorem run_quiet_after_terminal (n : Nat) (b : BodyS) (h : BInv b) :
+theorem run_quiet_after_terminal (n : Nat) (b : BodyS) (h : BInv b) (hsf : b.StaysFailed) :
     quietAfterTerminal (outs (b.run n)) := by
   induction n generalizing b with
   | zero => simp [BodyS.run, outs, quietAfterTerminal]
   | succ n ih =>
     have st := b.poll_ok h
     simp only [BodyS.run, outs, List.map_cons, quietAfterTerminal]
-    exact ⟨fun ht => run_fused_quiet n b.poll.1 (b.terminal_fuses h ht), ih b.poll.1 st.inv⟩
+    exact ⟨fun ht => run_fused_quiet n b.poll.1 (b.terminal_fuses h hsf ht),
+      ih b.poll.1 st.inv (b.staysFailed_poll hsf)⟩
 
 end HS
